@@ -99,7 +99,10 @@ def case_mtl(sp, tier, family):
     for i, o in enumerate(spec["ops"]):
         for n, _ in o["outs"]:
             ranks[n] = 40 + i
-    prog = Prog(spec, ranks=ranks)
+    f64 = family == "containers" and choice(2, "float64_program") == 1
+    if f64:
+        torch.KERNELS["lossy_casts"] = True  # a float64 -> float32 conversion is modelled as an arbitrary perturbation, not as the identity
+    prog = Prog(spec, ranks=ranks, dtype=torch.float64 if f64 else None)
     explicit = True if family == "containers" else choice(2, "explicit_lists") == 0
     ks = [None, 1, 2, 3] if family == "layout" else [None, 2]
     k = ks[choice(len(ks), "chunk")]
@@ -119,7 +122,7 @@ def case_mtl(sp, tier, family):
     def cex(model):
         return dict(kind="autojac_mtl", spec=spec_json(spec), losses=losses, features=feats, tasks_params=tasks_params if explicit else None,
                     shared_params=["p0", "p1"] if explicit else None, expected_tasks_params=tasks_params, expected_shared=["p0", "p1"],
-                    jac=jac_values(model, prog), v=cex_values(model, v=[o._flat() for o in A.outs])["v"], chunk=k, container=["list", "tuple", "generator", "iterator"][kind],
+                    jac=jac_values(model, prog), v=cex_values(model, v=[o._flat() for o in A.outs])["v"], chunk=k, container=["list", "tuple", "generator", "iterator"][kind], dtype="float64" if f64 else "float32",
                     old={kk: (cex_values(model, g=g)["g"] if g is not None else None) for kk, g in old.items()})
     # --- task specific parameters
     all_task = sorted({n for ps in tasks_params for n in ps})
